@@ -38,6 +38,14 @@ def cond_chain(fn, node):
             if n.get("else") is not None and rec(n["else"], conds + [A.no_double_neg("!" + c)]):
                 return True
             return False
+        if n.get("k") == "Match":
+            if rec(n["e"], conds):
+                return True
+            for a in n["arms"]:
+                bm = A.bool_match_conds(n, a)
+                if rec(a["body"], conds + (bm or [])):
+                    return True
+            return False
         return any(rec(v, conds) for v in A.children(n))
 
     rec(fn["body"], [])
@@ -730,10 +738,12 @@ def r_samples_voxel(rule, root=None):
             "forjin0..tile_size{foriin0..tile_size{letxy=((j*tile_size)+i);",
             "forjin0..tile_size{foriin0..tile_size{letxy=(i+(j*tile_size));",
         ]),
-        ("voxels of a column are visited top down", "forkin(0..tile_size).rev(){"),
-        ("x sample = corner.x + i", "*self.scratch.x.get_unchecked_mut(index)=((tile.corner[0]+i)asf32);"),
-        ("y sample = corner.y + j", "*self.scratch.y.get_unchecked_mut(index)=((tile.corner[1]+j)asf32);"),
-        ("z sample = corner.z + k", "*self.scratch.z.get_unchecked_mut(index)=((tile.corner[2]+k)asf32);"),
+        # the samples of a column fill consecutive slots from its top voxel down: a running `index += 1`, or slot
+        # `index + n` with n counting the reversed range and `index += tile_size` after the column
+        ("voxels of a column are visited top down", ["forkin(0..tile_size).rev(){", "@enum-rev"]),
+        ("x sample = corner.x + i", ["*self.scratch.x.get_unchecked_mut(index)=((tile.corner[0]+i)asf32);", "@slot:x:0:i"]),
+        ("y sample = corner.y + j", ["*self.scratch.y.get_unchecked_mut(index)=((tile.corner[1]+j)asf32);", "@slot:y:1:j"]),
+        ("z sample = corner.z + k", ["*self.scratch.z.get_unchecked_mut(index)=((tile.corner[2]+k)asf32);", "@slot:z:2:k"]),
         ("columns already filled to the tile's top are skipped", ["letzmax=(tile.corner[2]+tile_size).try_into().unwrap();if(self.out[o].depth>=zmax){continue;}", "@filled-skip"]),
         ("first negative sample in the (descending) column", [
             "letk=match$C.iter().enumerate().find(|(_,$D)|(**$D<0.0)){Some(($I,_))=>$I,None=>continue,};",
@@ -744,9 +754,24 @@ def r_samples_voxel(rule, root=None):
         ("depth = voxel index + 1", "letz=((tile.corner[2]+k)+1).try_into().unwrap();"),
         ("one chunk of tile_size samples per column", ["letmut$C=out.chunks(tile_size);", "for($K,$C)in(0..self.scratch.columns.len()).zip(out.chunks(tile_size))", "for($K,$C)in$R.zip(out.chunks(tile_size))", "for($K,$C)inout.chunks(tile_size).enumerate()"]),
     ]
+    tv = txt(A.value_view(fn)["body"])
+    enum_rev = tv.fmatch("for($N,k)in(0..tile_size).rev().enumerate(){")
+    enum_ok = enum_rev is not None and "(index+=tile_size);" in t and "(index+=1);" not in t
+
+    def _special(x):
+        if x == "@filled-skip":
+            return _filled_skip(fn)
+        if x == "@enum-rev":
+            return enum_ok
+        if x.startswith("@slot:"):
+            _a, arr, ax, v_ = x.split(":")
+            forms = {"i": ("i", "(xy%tile_size)"), "j": ("j", "(xy/tile_size)"), "k": ("k",)}[v_]
+            return enum_ok and any(tv.fmatch("*self.scratch.%s.get_unchecked_mut((index+$N))=((tile.corner[%s]+%s)asf32);" % (arr, ax, f_), bind=enum_rev) is not None for f_ in forms)
+        return None
+
     for what, f in need:
         alts = f if isinstance(f, list) else [f]
-        if any(_filled_skip(fn) if x == "@filled-skip" else ((x in t) if "$" not in x else (t.fmatch(x) is not None)) for x in alts):
+        if any(_special(x) if x.startswith("@") else ((x in t) if "$" not in x else (t.fmatch(x) is not None)) for x in alts):
             rule.ok("voxel samples: %s" % what, file=VOX, line=fn["ln"])
         else:
             rule.bad("samples|voxel|%s" % what[:28], "per-voxel evaluation: %s (`%s` not found)" % (what, alts[0][:60]), A.where(fn))
@@ -832,6 +857,8 @@ def r_samples_voxel(rule, root=None):
         or t.fmatch("let$U=(0..tile_size).any(|$Y|{let$I=self.tile_row_offset(tile,$Y);(0..tile_size).any(|$X|(self.out[($I+$X)].depth<fill_z))});if!$U{returnfalse;}") is not None
         or t.fmatch("if!(0..tile_size).any(|$Y|{let$I=self.tile_row_offset(tile,$Y);(0..tile_size).any(|$X|(self.out[($I+$X)].depth<fill_z))}){returnfalse;}") is not None
     )
+    if not early and _all_filled_guard(rf):
+        early = True
     if early:
         rule.ok("a tile is skipped only when every pixel under it is already at or above the tile's top")
     else:
@@ -841,11 +868,28 @@ def r_samples_voxel(rule, root=None):
 def r_zorder_root(rule, root=None):
     fn = worker_fn(VOX, "render_tile", root)
     loops = list(A.find(fn["body"], "For"))
+    if not loops:
+        # the same descent as a count-down: `let mut k = ceil(depth / root); while k > 0 { k -= 1; .. }`
+        whiles = list(A.find(fn["body"], "While"))
+        if len(whiles) == 1:
+            w = whiles[0]
+            cnd = str(txt(A.strip(w["cond"]))).strip("()")
+            mk = re.fullmatch(r"(\w+)>0|0<(\w+)|(\w+)!=0", cnd)
+            kname = next((g for g in (mk.groups() if mk else ()) if g), None)
+            first = A.stmts_of(w["body"])[:1]
+            dec = bool(first) and str(txt(first[0])).strip("();") in ("%s-=1" % kname, "(%s-=1)" % kname)
+            init = [l_ for l_ in A.find(fn["body"], "Let") if A.binding_name(l_["pat"]) == kname and l_.get("init") is not None]
+            it0 = A.resolve_locals(fn["body"], init[0]["init"]) if init else ""
+            if kname and dec and it0 in ("self.image_size[2].div_ceil((self.tile_sizes[0]asu32))", "self.image_size[2].div_ceil((root_tile_sizeasu32))"):
+                rule.ok("root tiles along z are visited from the top down and cover ceil(depth / root) (count-down loop)", file=VOX, line=w["ln"])
+                loops = [{"body": {"k": "Block", "stmts": A.stmts_of(w["body"])[1:]}, "pat": {"k": "PIdent", "name": kname}, "ln": w["ln"], "_countdown": True}]
     if len(loops) != 1:
         rule.lost("the root z loop in voxel render_tile")
         return
-    it = A.resolve_locals(fn["body"], loops[0]["iter"])
-    if it in ("(0..self.image_size[2].div_ceil((self.tile_sizes[0]asu32))).rev()", "(0..self.image_size[2].div_ceil((root_tile_sizeasu32))).rev()"):
+    it = A.resolve_locals(fn["body"], loops[0]["iter"]) if not loops[0].get("_countdown") else "(0..self.image_size[2].div_ceil((root_tile_sizeasu32))).rev()"
+    if loops[0].get("_countdown"):
+        pass
+    elif it in ("(0..self.image_size[2].div_ceil((self.tile_sizes[0]asu32))).rev()", "(0..self.image_size[2].div_ceil((root_tile_sizeasu32))).rev()"):
         rule.ok("root tiles along z are visited from the top down and cover ceil(depth / root)", file=VOX, line=loops[0]["ln"])
     else:
         rule.bad("voxel|root-z", "root tiles along z are iterated as `%s`; they must cover 0..ceil(depth / root) from the top down, because a full tile ends the column" % it, A.where(fn, loops[0]))
@@ -1175,6 +1219,67 @@ def r_axis_roles(rule, path, label, root=None):
         rule.skip("%s axis roles" % label, "no tile-local offsets are split from a linear index (`i = v %% n`, `j = v / n`) in this file", count=True)
 
 
+def _all_filled_guard(rf):
+    """does the first `return false` of the voxel recursion sit behind "every pixel under the tile is at or above the
+    tile's top"?  Recognised however it is spelled: nested `.all(.. >= ..)`, `!` nested `.any(.. < ..)`, either of
+    them named by a `let`, or a flag cleared inside two nested loops over 0..tile_size.  -> True / False / None"""
+    body = rf["body"]
+    rets = [r for r in A.find(body, "Return") if str(txt(r.get("e") or {})) == "false"]
+    if not rets:
+        return None
+    r0 = min(rets, key=lambda r: r.get("ln", 0))
+    conds = A.enclosing_conds(body, r0) or []
+    if not conds:
+        return False
+    g = A.no_double_neg(str(conds[-1]).replace(" ", ""))
+    neg = g.startswith("!")
+    name = g.lstrip("!").strip("()")
+    expr_t = None
+    flag = None
+    if re.fullmatch(r"\w+", name):
+        for l_ in A.find(body, "Let"):
+            if A.binding_name(l_["pat"]) == name and l_.get("init") is not None:
+                if A.pat_is_mut(l_["pat"]) if hasattr(A, "pat_is_mut") else bool(l_["pat"].get("mut")):
+                    flag = (l_, str(txt(l_["init"])))
+                else:
+                    expr_t = str(txt(l_["init"]))
+    else:
+        expr_t = g.lstrip("!")
+    rng = r"\(?0\.\.tile_size\)?"
+    row = r"(?:self\.tile_row_offset\(tile,(\w+)\)|self\.tile_sizes\.pixel_offset\(tile\.add\(Vector2::new\(0,(\w+)\)\)\))"
+    if expr_t is not None:
+        for quant, cmp_, want_neg in (("all", ">=", False), ("any", "<", True)):
+            m = re.search(rng + r"\.%s\(\|(\w+)\|\{?(?:let(\w+)=\{?%s\}?;)?" % (quant, row) + rng + r"\.%s\(\|(\w+)\|\(?self\.out\[\(?(\w+|%s)\+(\w+)\)?\]\.depth%sfill_z" % (quant, row, re.escape(cmp_)), expr_t)
+            if m and neg == want_neg:
+                return True
+        return False
+    if flag is not None:
+        l_, init = flag
+        if init not in ("true", "false"):
+            return False
+        start_true = init == "true"
+        # the flag is flipped under the per-pixel comparison inside two nested loops over 0..tile_size
+        outer = [f for f in A.find(body, "For") if re.fullmatch(rng, str(txt(f["iter"]))) and f.get("ln", 0) > l_.get("ln", 0) and f.get("ln", 0) < r0.get("ln", 1 << 30)]
+        for fo in outer:
+            inner = [f for f in A.find(fo["body"], "For") if re.fullmatch(rng, str(txt(f["iter"])))]
+            for fi in inner:
+                for a in A.find(fi["body"], "Assign"):
+                    if str(txt(a["left"])) != name:
+                        continue
+                    val = str(txt(a["right"]))
+                    cs = [A.no_double_neg(str(c).replace(" ", "")) for c in (A.enclosing_conds(fi["body"], a) or [])]
+                    y, x = A.binding_name(fo["pat"]), A.binding_name(fi["pat"])
+                    pix = r"\(?self\.out\[\(?(\w+)\+%s\)?\]\.depth" % re.escape(x or "?")
+                    below = any(re.fullmatch(pix + r"<fill_z\)?", c) for c in cs)
+                    above_neg = any(re.fullmatch(r"!" + pix + r">=fill_z\)?", c) for c in cs)
+                    if start_true and val == "false" and (below or above_neg) and not neg:
+                        return True
+                    if (not start_true) and val == "true" and (below or above_neg) and neg:
+                        return True
+        return False
+    return False
+
+
 def r_keep_going(rule, root=None):
     """voxel `render_tile_recurse` answers `false` ("stop, this column of root tiles is finished") only when every
     pixel of the tile is filled: either it already was, or the tile is full (`upper() < 0`) and has just been
@@ -1206,6 +1311,8 @@ def r_keep_going(rule, root=None):
                     last = mname.group(1) + str(txt(l_["init"]))
         full = ivar is not None and last.strip("()") in ("%s.upper()<0.0" % ivar, "0.0>%s.upper()" % ivar)
         filled = ".depth" in last and ((".all(" in last and ">=" in last and ".any(" not in last and not last.startswith("!")) or (last.startswith("!") and ".any(" in last and "<" in last and ".all(" not in last and ">=" not in last))
+        if not (full or filled) and nf == 1 and _all_filled_guard(fn0):
+            filled = True
         if full or filled:
             rule.ok("`false` only once the tile is filled (%s)" % ("full tile" if full else "already filled"), file=VOX, line=v.get("ln", fn["ln"]))
         else:
